@@ -628,7 +628,7 @@ class Exec(Sym):
                 return self.store[fk]
         if n0.get("k") == "Block" and (n0.get("stmts") or n0.get("unsafe")):
             return self.block(n0, d)
-        if n0.get("k") == "Call" and (callee_of(n0) or "").endswith("String::new"):
+        if n0.get("k") == "Call" and (callee_of(n0) or "").endswith(("String::new", "String::with_capacity")):
             return ("str",)
         if n0.get("k") == "Match":
             return self.branch_match(n0, d + 1)
@@ -722,6 +722,8 @@ class Exec(Sym):
                 self.store[lid] = str_append(cur, ("s", self.sym(st0["args"][0], d)))
             else:
                 pass  # effect-free for our summaries (checked by the caller's anchors)
+        elif k == "Call" and self.inline_string_helper(st0, d):
+            pass
         elif k == "If":
             self.branch_if(st0, d)
         elif k == "Match":
@@ -734,6 +736,35 @@ class Exec(Sym):
             raise Unsupported("loop")
         else:
             pass
+
+    def inline_string_helper(self, call, d):
+        """`helper(&mut s, a, b)` with a crate-local helper that only builds the string: execute the helper's body with its
+        parameters bound to the argument normal forms and take its string back (one level of helper inlining)."""
+        c = callee_of(call)
+        if not c or self.facts is None or c not in self.facts.fns or d > 6:
+            return False
+        callee = self.facts.fns[c]
+        params = callee["hir"].get("params") or []
+        if len(params) != len(call["args"]):
+            return False
+        str_args = [(i, self.local_id(a)) for i, a in enumerate(call["args"]) if strip(a).get("ty", "").endswith("std::string::String")
+                    and self.local_id(a) is not None and self.store.get(self.local_id(a), ("x",))[0] in ("str", "if", "match")]
+        if len(str_args) != 1:
+            return False
+        sub = Exec(callee["hir"], self.facts)
+        for i, (prm, a) in enumerate(zip(params, call["args"])):
+            if prm["pat"].get("k") != "PBind":
+                return False
+            if i == str_args[0][0]:
+                sub.store[prm["pat"]["id"]] = self.store[str_args[0][1]]
+            else:
+                sub.store[prm["pat"]["id"]] = self.sym(a, d + 1)
+        try:
+            sub.run()
+        except Unsupported:
+            return False
+        self.store[str_args[0][1]] = sub.store[params[str_args[0][0]]["pat"]["id"]]
+        return True
 
     def bind(self, pat, v):
         k = pat["k"]
@@ -819,6 +850,9 @@ class Exec(Sym):
         elif k == "PTuple":
             for i, sub in enumerate(pat["pats"]):
                 self.bind_pat_fields(sub, ("field", sc, str(i)))
+        elif k == "POr" and pat.get("pats"):
+            # all alternatives bind the same names; bind through the first one
+            self.bind_pat_fields(pat["pats"][0], sc)
 
 
 def str_append(cur, part):
